@@ -101,6 +101,10 @@ impl Property for C13 {
         check_case(c)
     }
     fn signatures(c: &Case) -> Vec<&'static str> {
+        // (development aid: VCHECK_NOSIG=1 shows what the open findings currently hide)
+        if std::env::var_os("VCHECK_NOSIG").is_some() {
+            return vec![];
+        }
         let mut v = vec![];
         if !c.opts.braces && ds::has_empty_collection(&c.ty, &c.val) {
             v.push("empty_no_braces");
